@@ -157,7 +157,7 @@ RenderClassClose == <<"}", ";">>
 RenderMembers(ms) == FlatSeq([i \in 1..Len(ms) |-> RenderMember(ms[i])])
 
 RenderLeaf(d) ==
-  CASE d.k = "include"  -> <<"#include", "<" \o d.header \o ">">>
+  CASE d.k = "include"  -> <<"#include <" \o d.header \o ">">>     \* one token: the header is copied verbatim
     [] d.k = "fwd"      -> (IF d.virtual THEN <<"virtual">> ELSE <<>>) \o <<"class">> \o RenderQn(d.qn)
                            \o (IF d.hasparent THEN <<":">> \o RenderQn(d.parent) ELSE <<>>) \o <<";">>
     [] d.k = "typedef"  -> <<"typedef">> \o RenderType(d.t) \o <<d.newname, ";">>
